@@ -19,6 +19,9 @@ pub struct Plan {
     pub read_yield: u32,
     /// Recorded scheduler choices (replay); `None` = draw from the PRNG.
     pub schedule: Option<Vec<u8>>,
+    /// Use the statement-level scheduling points of the instrumented
+    /// provider sources in this run.
+    pub stmt_points: bool,
 }
 
 impl Plan {
@@ -109,6 +112,7 @@ pub fn plan_to_json(p: &Plan) -> Value {
         "strategy": p.strategy.name(),
         "read_yield": p.read_yield,
         "schedule": match &p.schedule { Some(s) => json!(s), None => Value::Null },
+        "stmt_points": p.stmt_points,
     })
 }
 
@@ -133,5 +137,6 @@ pub fn plan_from_json(v: &Value) -> Plan {
         schedule: v["schedule"]
             .as_array()
             .map(|a| a.iter().map(|x| x.as_u64().unwrap_or(0) as u8).collect()),
+        stmt_points: v["stmt_points"].as_bool().unwrap_or(false),
     }
 }
